@@ -140,6 +140,7 @@ func (c *FnCtx) callFunc(fr *Frame, st *State, fn *ssa.Function, bindings []Val,
 			nv = c.iteVal(st.guard, nv, prev)
 		}
 		c.lastCall[fn.Name()] = nv
+		c.recordResult(st, fn.Name(), r)
 	}
 	return r
 }
@@ -388,6 +389,9 @@ func (c *FnCtx) callWithContract(fr *Frame, st *State, fn *ssa.Function, spec *F
 			nv = c.iteVal(st.guard, nv, prev)
 		}
 		c.lastCall[fn.Name()] = nv
+		if c.isTracked(fn) {
+			c.recordResult(st, fn.Name(), r)
+		}
 	}
 	return tupleVal(resT, vs)
 }
@@ -588,6 +592,7 @@ func (c *FnCtx) invoke(fr *Frame, st *State, recv Val, m *types.Func, args []Val
 					nv = c.iteVal(st.guard, nv, prev)
 				}
 				c.lastCall[m.Name()] = nv
+				c.recordResult(st, m.Name(), r)
 			}
 		}
 	}
